@@ -149,7 +149,7 @@ struct StringStream {
     }
 
     inline friend StringStream &operator<<(StringStream &out, const StringStream &stream) {
-        out.write(stream.First(), stream.Length());
+        out += stream; // 'stream' can be 'out': operator+= reserves before it takes First().
         return out;
     }
 
